@@ -279,12 +279,17 @@ def _execute14(scn, ctx, store, clock):
                 continue
             n_files += 1
             path = store.path('over_%d.%s' % (n_files, 'csv' if op['fmt'] == 'ascii' else 'json'))
-            for src in (a, b):
+            for k_, src in enumerate((a, b)):
                 c = make(src)
                 r = call(c.write_ascii, path) if op['fmt'] == 'ascii' else call(c.write_json, path)
                 if r[0] != 'ok':
                     ctx.violate('C14', 'exception', 'OVERWRITE:write:%s:%s' % (op['fmt'], r[1]), {'op': oi, 'msg': r[2]})
                     return
+                if k_ == 0 and op.get('read_between', True):
+                    # the first version is read before it is replaced (anything remembered per path must not survive)
+                    r0 = call(csep.load_catalog, path)
+                    if r0[0] == 'ok':
+                        _compare_rows(ctx, rows_of(r0[1]), model_rows(scn['cats'][a]['events']), 'OVERWRITE:first:' + op['fmt'], oi)
             r = call(csep.load_catalog, path)
             if r[0] != 'ok':
                 ctx.violate('C14', 'exception', 'OVERWRITE:load:%s:%s%s' % (
@@ -465,7 +470,7 @@ def _field_equal(a, b):
     return fa == fb
 
 
-def check_result_roundtrip(ctx, store, res, tag, n):
+def check_result_roundtrip(ctx, store, res, tag, n, generation=1, original=None):
     import csep
     # only two paths per run: most results overwrite an earlier (longer or shorter) file written moments before
     path = store.path('res_%d.json' % (n % 2))
@@ -523,9 +528,25 @@ def check_result_roundtrip(ctx, store, res, tag, n):
         if db is None or not _field_equal(da, db):
             ctx.violate('C18', 'fields', '%s:test_distribution' % cls,
                         {'test': tag, 'before_len': len(da), 'after_len': None if db is None else len(db)})
+            return
     else:
         if not _field_equal(res.test_distribution, new.test_distribution):
             ctx.violate('C18', 'fields', '%s:test_distribution' % cls, {'test': tag})
+            return
+    if generation == 1 and n % 3 == 0:
+        # second generation: the loaded result is itself a result the library produced; write and load it again
+        check_result_roundtrip(ctx, store, new, tag + '>2nd', n + 1, generation=2, original=res)
+    elif generation == 2 and original is not None:
+        for fld in ('observed_statistic', 'quantile', 'test_distribution', 'status', 'name'):
+            if not _field_equal(getattr(original, fld, None) if fld != 'test_distribution' else
+                                (_numeric_list(original.test_distribution) or list(original.test_distribution)
+                                 if not isinstance(original.test_distribution, str) else original.test_distribution),
+                                getattr(new, fld, None) if fld != 'test_distribution' else
+                                (_numeric_list(new.test_distribution) or list(new.test_distribution)
+                                 if not isinstance(new.test_distribution, str) else new.test_distribution)):
+                ctx.violate('C18', 'fields', '%s:second-generation:%s' % (cls, fld), {'test': tag})
+                return
+        ctx.count('second_generation_checked')
 
 
 def _execute18(scn, ctx, store, clock):
